@@ -93,6 +93,13 @@ func scribbleBytes(v reflect.Value, depth int, seen map[uintptr]bool) {
 	}
 }
 
+func clipN2(s string, n int) string {
+	if len(s) > n {
+		return s[:n] + "..."
+	}
+	return s
+}
+
 func sortedNames(m map[string]string) []string {
 	out := make([]string, 0, len(m))
 	for k := range m {
@@ -211,9 +218,14 @@ func TestC11(t *testing.T) {
 		// reference encodings (fresh instance each) of every value
 		enc := make([][]byte, len(vals))
 		for i, v := range vals {
+			a0, _ := zoo.Project(v, nil)
+			before := av.Canon(a0, av.Options{})
 			b, err := hessian.ToBytes(v, copyNames(fullNM))
 			if err != nil {
 				rt.Skip("value does not encode (C01's subject)")
+			}
+			if a1, _ := zoo.Project(v, nil); av.Canon(a1, av.Options{}) != before {
+				failf(rt, c, "C11: ToBytes modified the value being encoded (%s): it was %s", descs[i], clipN2(before, 300))
 			}
 			enc[i] = b
 		}
@@ -221,7 +233,8 @@ func TestC11(t *testing.T) {
 		for i, v := range vals {
 			if i%2 == 1 {
 				if a, perr := zoo.Project(v, nm); perr == nil {
-					alt := refcodec.Encode(a, rapidChoices{rt}, refcodec.EncOptions{HoistAnywhere: true, MaxPadding: 2})
+					// (binaries in the chunk tag of the final specification or of the draft the library also reads)
+					alt := refcodec.Encode(a, rapidChoices{rt}, refcodec.EncOptions{HoistAnywhere: true, MaxPadding: 2, MaxChunks: 3, BinChunkTag: rapid.SampledFrom([]byte{'A', 'b'}).Draw(rt, "binaryChunkTag")})
 					if o1, e1 := hessian.ToObject(alt, tm); e1 == nil {
 						if o0, e0 := hessian.ToObject(enc[i], tm); e0 == nil && vcmp.EqualValues(o0, o1) == nil {
 							enc[i] = alt
